@@ -91,6 +91,26 @@ theorem shift_direction_matches_kind (s : Stream) (h : Consistent s) :
 theorem htr_is_reciprocal (s : Stream) (h : Consistent s) (h0 : s.htc ≠ 0) : s.htr = 1 / s.htc :=
   h.htr h0
 
+/-- **Where a latent load sits.**  A stream entered with equal supply and target temperature `T` is given a
+    band of width `iso`: `[T, T + iso]` when it is cold (duty ≥ 0), `[T − iso, T]` when it is hot (duty < 0) —
+    a condensing stream is never treated as hotter than its supply temperature.  (Seeded change
+    C01-isothermal-hot-band-above puts the hot band at `[T, T + iso]`.) -/
+theorem isothermal_band (iso : Rat) (hiso : 0 < iso) (T dt q htc price : Rat) :
+    (0 ≤ q → (new iso (some T) (some T) dt q htc price).1.tmin = some T ∧
+             (new iso (some T) (some T) dt q htc price).1.tmax = some (T + iso)) ∧
+    (q < 0 → (new iso (some T) (some T) dt q htc price).1.tmax = some T ∧
+             (new iso (some T) (some T) dt q htc price).1.tmin = some (T - iso)) := by
+  have hne : (T + iso) - T ≠ 0 := by linarith
+  have hne' : T - (T - iso) ≠ 0 := by linarith
+  constructor
+  · intro hq
+    simp only [new, update, orient, hq, setCold, setHot, Stream.setCp, calcHtr, calcUtCost, lt_irrefl, if_false, if_true]
+    split_ifs <;> exact ⟨rfl, rfl⟩
+  · intro hq
+    have : ¬ 0 ≤ q := not_le.mpr hq
+    simp only [new, update, orient, this, setCold, setHot, Stream.setCp, calcHtr, calcUtCost, lt_irrefl, if_false, if_true]
+    split_ifs <;> exact ⟨rfl, rfl⟩
+
 /-- The generated isothermal offset is positive, so the theorems above apply to the code's constant. -/
 theorem isoOffset_pos : 0 < Gen.isoOffset := by decide +kernel
 
